@@ -238,7 +238,12 @@ def main(argv=None) -> int:
                 if k.endswith(".continues") and not v:
                     continue_errors.append(f"vacuity: no path of {r.unit} continues after the call {k.split('.call.', 1)[1][:-10]} (the callee's contract contradicts the state at every call)")
         for ob in r.obligations:
-            if ob.props and prop not in ob.props and (set(ob.props) & unit_props.get(r.unit, set())):
+            # frame and atomicity obligations say "this unit touches nothing else": whatever a unit
+            # writes outside its frame can break any property that relies on the unit, so they count
+            # for every check that runs it (they used to count only for the properties named in the
+            # unit's contract: seeded/C15-mark-request-also-sets-terminated passed the C15 check)
+            structural = ".frame." in ob.name or ob.name.endswith(".atomic")
+            if not structural and ob.props and prop not in ob.props and (set(ob.props) & unit_props.get(r.unit, set())):
                 # counted by another property whose plan also runs this unit; an obligation that
                 # no such property claims is counted here (no obligation of a unit goes unjudged)
                 continue
